@@ -446,6 +446,12 @@ def analyze(prog):
                     n += max([count(c, dest, depth + 1) for _, c in m[3]] or [0])
         return n
     cand_nodes = [n for n in reach if any(k == 'cand' for _, _, k in cons[n])]
+    for n in reach:
+        if n == prog['input']:
+            continue
+        if count(prog['output'], n) + sum(count(c, n) for c in cand_nodes) > 1:
+            tags.add('node_in_two_scopes')
+            break
     for start, dest, mx, consumer in recs:
         nsc = count(prog['output'], dest) + sum(count(c, dest) for c in cand_nodes)
         if nsc > 1:
